@@ -282,7 +282,10 @@ class Filterbank(ABC):
             **plan_kwargs,
         ):
             kernels.extract_tim(data, tim_ar, self.header.nchans, nsamps_r, ii * gulp)
-        return TimeSeries(tim_ar, self.header.new_header({"nchans": 1, "dm": 0}))
+        return TimeSeries(
+            tim_ar,
+            self.header.new_header({"nchans": 1, "dm": 0, "nsamples": tim_len}),
+        )
 
     def bandpass(
         self,
